@@ -223,6 +223,17 @@ def main(argv=None):
             print('CHECKER-ERROR assumed-contract sanity tests failed: %s' % bad)
             return 3
 
+    # 1b. engine self-check (thorough tier): differential test of the numpy spec table / array proxies against the installed numpy
+    selfcheck = None
+    if a.tier == 'thorough' and not a.only:
+        import subprocess
+        r = subprocess.run([sys.executable, os.path.join(ROOT, 'selftest', 'spec_diff.py')], capture_output=True, text=True, timeout=600)
+        selfcheck = (r.stdout.strip().splitlines() or ['no output'])[-1]
+        if r.returncode != 0:
+            print('CHECKER-ERROR engine self-check failed: %s' % selfcheck)
+            print(r.stdout[-2000:])
+            return 3
+
     # 2. contracts
     idxs = [i for i, c in enumerate(mod.CONTRACTS) if not a.only or a.only in c.cname]
     jobs = [(modname, i, a.tier, seed, a.repo) for i in idxs]
@@ -364,6 +375,7 @@ def main(argv=None):
             bounded=bounded, evaluations=max(bcases + n_obl, 1), distinct_nontrivial=max(bnontriv + n_dis, 2) if (bnontriv + n_dis) >= 2 else bnontriv + n_dis,
             rule='obligations: one per (function, path, clause) generated from the real source in this run; bounded cases: see bounded[*].bound / rule',
             assumption_sanity_tests=dict(run=len(sanity), passed=sum(1 for _, ok in sanity if ok), names=[n for n, _ in sanity]),
+            engine_selfcheck=selfcheck,
             vacuity=dict(covers=sum(o['covers'] for o in outs), covers_sat=sum(o['covers_sat'] for o in outs)),
             not_proved_clauses=list(getattr(mod, 'NOT_PROVED', [])),
             degraded=degraded, known_findings=[k['id'] for k, _ in known_hits], fixed=fixed,
